@@ -14,7 +14,18 @@ TRUSTED = [
     "Go harness harness/cmd/hC12 (generators, AST printer, text rendering of token lists, dump of unicode classes"
     " and of indexType through parser/export_verif_c12.go)",
     "Go's unicode tables (classes, ToLower) enter as per-case data (oracle instance), never as axioms",
-    "legacy ParseQuery and ParseAggregationFilter on raw bytes: NOT modelled below token level; fuzzed only",
+    "hand-written rune-level model props/C12/coq/Legacy.v of the LEGACY parser and of ParseAggregationFilter:"
+    " []rune(data) (utf8 decoding as in Lexer.v), tokenParser{data,pos} with tp.data[tp.pos] / tp.data[a:b] / tokens[0] as"
+    " checked operations and the two explicit panic(..) calls as RPanic, skipSpaces, parseSimpleTerm, parseTerms,"
+    " parseQuotedTerms, parseRangeTerm, parseRange, parseLiteral, parseTokenQuery, errorUnexpectedSymbol, the keyword /"
+    " text / single-term builders (finishTextTerm, finishToken, endsWithSymbol, case folding with unicode.ToLower as oracle),"
+    " parseSubexpr/parseExpr with the depth counter, buildAst + propagateNot (tied to /repo by comparing the outcome and the"
+    " FULL AST - every Literal's field and terms, every Range's bounds and inclusion flags - of the real ParseQuery /"
+    " ParseAggregationFilter with the model on every generated raw string, both case modes, full/nil/empty mapping)",
+    "strings.EqualFold(w, \"not\"/\"to\") is modelled as ASCII case folding (no non-ASCII rune folds to n, o or t);"
+    " strings.ToLower(operator) as rune-wise unicode.ToLower (oracle); error MESSAGES are not modelled (only ok/error)",
+    "Go's goroutine stack limit is outside the model: the model's recursion depth equals the nesting depth of `(`/`not`,"
+    " which the code does not bound (see ASSUME and the deep-nesting probe)",
 ]
 ASSUME = [
     "token-level abstraction (semantics theorems): a field filter (k:v, k:in(..), text field with k words) is one token",
@@ -23,7 +34,12 @@ ASSUME = [
     "lexer-to-parser glue abstracts values: a keyword/path literal and a range are one leaf in the boolean structure (the range's two bound terms and a keyword literal's terms ARE modelled: keyword_terms with rune-wise ToLower as oracle; IncludeFrom/IncludeTo are not), a text literal is the AND"
     " of its words, in(..) is the parenthesised OR of its members, a well-formed pipe section is the terminator token TPipe (the token-level parser folds its OR/AND accumulators there as at end of input); term contents,"
     " case folding of values and pipe field names are not modelled",
-    "raw-byte totality of the legacy parser (ParseQuery) and of ParseAggregationFilter is established by fuzzing only (PARTIAL)",
+    "stage 3 theorems (legacy parser, aggregation filter, tokenizer refinement) hold for ALL class oracles, ToLower"
+    " functions, case modes and field mappings - no hypothesis",
+    "totality is proved for the MODEL's semantics of Go (unbounded stack): parseSubexpr/parseExpr (and SeqQL's"
+    " parseSeqQLSubexpr) recurse once per `(` / `not` without a depth limit, so a query of about 2 million nested `(`"
+    " (2 MB; the store accepts 256 MB messages) exhausts the real 1 GB goroutine stack - a fatal error that recover()"
+    " cannot catch. The driver probes this in a child process and reports it as fingerprint fatal-stack-overflow:<parser>",
 ]
 RULE = ("exhaustive: all boolean trees up to the tier's node bound over 3 atoms x minimal/full parentheses x "
         "SeqQL/legacy parser, and (SeqQL) each of them again followed by a pipe section with the same truth-table spec; "
@@ -36,7 +52,15 @@ RULE = ("exhaustive: all boolean trees up to the tier's node bound over 3 atoms 
         "members as stand-alone filters (truth table over the numbered literals of both real ASTs); "
         "range filters f:[a, b] (both bracket kinds, `,`/to, plain/quoted/raw/escaped bounds, mixed and non-ASCII case, wildcard ends, "
         "conf.CaseSensitive off and on, _exists_) vs the plain literals f:a, f:b: the stored bounds must be the literals' single terms; "
-        "raw-string fuzz of all three entry points over every mapping type. non-trivial = expression has "
+        "raw-string fuzz of all three entry points over every mapping type; stage 3: hand-written hostile legacy strings "
+        "(every error site: unterminated quote, trailing backslash, lone `:`, empty field name, range fragments, duplicate "
+        "wildcards, all index types incl. object/tags/nested/exists, invalid UTF-8, non-ASCII spaces and case), every structural "
+        "character inserted at / replacing every position of base queries, fragment-built strings, nesting 40..1200 deep, through the "
+        "real ParseQuery (full/nil/empty mapping, both case modes) and ParseAggregationFilter vs the rune-level model (outcome and "
+        "full AST with tokens; spec: ok or error, NOT only at the root, no empty Literal); grammar-derived expressions written in "
+        "varied raw legacy syntax (quoted / spaced / upper-case / path / range / text-with-several-words leaves) with the "
+        "truth-table spec against the generator's expression; 100000-deep nesting under recover and 3000000-deep nesting in a "
+        "child process (real parsers only). non-trivial = expression has "
         "a NOT and a binary operator / token list parses / tree has NOT and OR / raw string has >= 3 tokens and a quoted "
         "token, a comment or parses / round trip of >= 2 atoms; distinct by input")
 
